@@ -85,20 +85,34 @@ pub fn break_concat(last_string: &str) -> bool {
 }
 
 pub fn ends_with_prefix(statement: &Statement) -> bool {
+    statement_ends_with_prefix(statement, false)
+}
+
+/// Same as `ends_with_prefix`, for a generator that writes the original token of a number when
+/// there is one (only a number written from its value can end with a parenthese).
+pub fn ends_with_prefix_using_tokens(statement: &Statement) -> bool {
+    statement_ends_with_prefix(statement, true)
+}
+
+fn statement_ends_with_prefix(statement: &Statement, use_tokens: bool) -> bool {
     match statement {
         Statement::Assign(assign) => {
             if let Some(value) = assign.last_value() {
-                expression_ends_with_prefix(value)
+                expression_ends_with_prefix(value, use_tokens)
             } else {
                 false
             }
         }
-        Statement::CompoundAssign(assign) => expression_ends_with_prefix(assign.get_value()),
+        Statement::CompoundAssign(assign) => {
+            expression_ends_with_prefix(assign.get_value(), use_tokens)
+        }
         Statement::Call(_) => true,
-        Statement::Repeat(repeat) => expression_ends_with_prefix(repeat.get_condition()),
+        Statement::Repeat(repeat) => {
+            expression_ends_with_prefix(repeat.get_condition(), use_tokens)
+        }
         Statement::LocalAssign(assign) => {
             if let Some(value) = assign.last_value() {
-                expression_ends_with_prefix(value)
+                expression_ends_with_prefix(value, use_tokens)
             } else {
                 false
             }
@@ -160,12 +174,12 @@ pub fn starts_with_parenthese(statement: &Statement) -> bool {
     }
 }
 
-fn expression_ends_with_prefix(expression: &Expression) -> bool {
+fn expression_ends_with_prefix(expression: &Expression, use_tokens: bool) -> bool {
     match expression {
         Expression::Binary(binary) => {
             // the right operand may get wrapped into parentheses when written
             binary.operator().right_needs_parentheses(binary.right())
-                || expression_ends_with_prefix(binary.right())
+                || expression_ends_with_prefix(binary.right(), use_tokens)
         }
         Expression::Call(_)
         | Expression::Parenthese(_)
@@ -178,15 +192,22 @@ fn expression_ends_with_prefix(expression: &Expression) -> bool {
             matches!(
                 unary.get_expression(),
                 Expression::Binary(binary) if !binary.operator().precedes_unary_expression()
-            ) || expression_ends_with_prefix(unary.get_expression())
+            ) || expression_ends_with_prefix(unary.get_expression(), use_tokens)
+        }
+        Expression::Number(number) => {
+            // infinite numbers and nan are written as a division between parentheses
+            !(use_tokens && number.get_token().is_some())
+                && matches!(
+                    number,
+                    NumberExpression::Decimal(decimal) if !decimal.get_raw_float().is_finite()
+                )
         }
         Expression::If(if_expression) => {
-            expression_ends_with_prefix(if_expression.get_else_result())
+            expression_ends_with_prefix(if_expression.get_else_result(), use_tokens)
         }
         Expression::False(_)
         | Expression::Function(_)
         | Expression::Nil(_)
-        | Expression::Number(_)
         | Expression::String(_)
         | Expression::InterpolatedString(_)
         | Expression::Table(_)
